@@ -27,6 +27,7 @@ EXPLANATION = (
     ' Round 4: (13) LOOPFRESH, (14) segment width measured over its own offsets (C03.13), (15) scroll-bar parts (C20.3).'
     " Round-4 triage: (17) widget text is cut into lines at the layout's separator only - no str.splitlines() in the widget / layout / canvas layers; split()/count() in a measurement use the newline constant of the layout. Round 5: (18) Frame.render cuts each part with its own trim; (19) SHADOW - no loop target clobbers a live local (the rule that found the resize() defect of vterm, applied to all widget modules); (20) every CompositeCanvas method that cuts rows / columns away drops a cursor left outside."
     ' (21) NONNEG: the position given to CanvasOverlay() / overlay() is clamped at 0 wherever the calling function itself treats it as possibly negative (fix a7d4a9b: Overlay with a packed top widget wider than the screen gave rows of 9, 11, 9 columns).'
+    ' (22) SIB: every inversion of a relative size (child * 100 / percent) in the widget layer rounds to the nearest cell, so pack() and the padding computation of render() agree on the total (fix b429ef1: Padding.pack(()) == (17, 1) but render(()).cols() == 16).'
 )
 NOT_DECIDED = (
     "That composed canvases actually have the requested size for all trees/sizes/texts (value semantics of shards, layout and padding); truthfulness of sizing(); wide-character column "
@@ -394,6 +395,34 @@ def rule_overlay_position(ctx: Ctx) -> RuleResult:
     return rr
 
 
+def rule_inverse_percent(ctx: Ctx) -> RuleResult:
+    """A widget with a relative size under fixed sizing derives its own total from the child's size: total = child *
+    100 / percent.  pack() and the padding computation used by render() must arrive at the same total, so every such
+    inversion in the widget layer rounds the same way - to the nearest column, `int(x * 100 / self.<..>_amount + 0.5)`
+    (5 sites: Padding.pack, Padding.padding_values, Overlay.pack x3).  Before fix b429ef1 Padding.padding_values
+    floored (`* 100 // amount`): pack(()) said 17 columns, render(()) produced 16."""
+    p = ctx.p
+    rr = RuleResult("SIB", "C01.22", "every inversion of a relative size (x * 100 / self.<width|height>_amount) rounds to the nearest cell, int(. + 0.5): pack() and render() agree on the total", floor=4)
+    for fi in p.functions.values():
+        if not fi.module.name.startswith("urwid.widget"):
+            continue
+        parents = None
+        for b in fi.own_nodes():
+            if not (isinstance(b, ast.BinOp) and isinstance(b.op, (ast.Div, ast.FloorDiv)) and isinstance(b.right, ast.Attribute) and b.right.attr.lstrip("_") in ("width_amount", "height_amount")):
+                continue
+            if not (isinstance(b.left, ast.BinOp) and isinstance(b.left.op, ast.Mult) and any(isinstance(x, ast.Constant) and x.value == 100 for x in (b.left.left, b.left.right))):
+                continue
+            if parents is None:
+                parents = {id(ch): par for par in ast.walk(fi.node) for ch in ast.iter_child_nodes(par)}
+            up = parents.get(id(b))
+            nearest = isinstance(b.op, ast.Div) and isinstance(up, ast.BinOp) and isinstance(up.op, ast.Add) and any(isinstance(x, ast.Constant) and x.value == 0.5 for x in (up.left, up.right)) and isinstance(parents.get(id(up)), ast.Call) and callee_name(parents[id(up)]) == "int"
+            ident = f"{short(fi)}: {norm(b, 60)}"
+            rr.inst(ident, True, {"site": ident, "rounding": "nearest" if nearest else ("floor" if isinstance(b.op, ast.FloorDiv) else "other")})
+            if not nearest:
+                rr.add(finding("SIB", fi, b, f"`{norm(up if up is not None and not isinstance(b.op, ast.FloorDiv) else b, 70)}` inverts the relative size with another rounding than the other sites (int(x * 100 / amount + 0.5)): the total this method works with differs by one cell from the total pack() reports, the canvas is narrower / shorter than the size the widget states", construct=f"inverse percent not rounded to nearest: {norm(b, 50)}"))
+    return rr
+
+
 def rule_trim_drops_cursor(ctx: Ctx) -> RuleResult:
     """'a cursor, if present, lies inside the canvas': the methods of CompositeCanvas that cut rows or columns away
     (they call shards_trim_top / shards_trim_rows / shards_trim_sides) move the cursor coordinates with the content;
@@ -466,6 +495,7 @@ def run(ctx: Ctx):
         _shadow(ctx),
         rule_trim_drops_cursor(ctx),
         rule_overlay_position(ctx),
+        rule_inverse_percent(ctx),
     ]
 
 
@@ -474,6 +504,8 @@ _COLS = "urwid/widget/columns.py"
 _CANV = "urwid/canvas.py"
 _TEXT = "urwid/widget/text.py"
 MUTANTS = [
+    Mut("padding-relative-total-floored", "urwid/widget/padding.py", "Padding.padding_values", "max(int(self._original_widget.pack((), focus=focus)[0] * 100 / self._width_amount + 0.5), self.min_width or 1)", "max(self._original_widget.pack((), focus=focus)[0] * 100 // self._width_amount, self.min_width or 1)", "SIB|widget.padding.Padding.padding_values|inverse percent not rounded to nearest"),
+    Mut("overlay-pack-relative-truncated", "urwid/widget/overlay.py", "Overlay.pack", "            cols = int(w_cols * 100 / self.width_amount + 0.5)", "            cols = int(w_cols * 100 / self.width_amount)", "SIB|widget.overlay.Overlay.pack|inverse percent not rounded to nearest"),
     Mut("overlay-negative-left-position", "urwid/widget/overlay.py", "Overlay.render", "        return CanvasOverlay(top_c, bottom_c, max(0, left), max(0, top))", "        return CanvasOverlay(top_c, bottom_c, left, top)", "NONNEG|widget.overlay.Overlay.render|possibly negative left as overlay position"),
     Mut("trim-end-keeps-outside-cursor", _CANV, "CompositeCanvas.trim_end", "        self.shards = shards_trim_rows(self.shards, self.rows() - end)\n        self._drop_trimmed_cursor()\n", "        self.shards = shards_trim_rows(self.shards, self.rows() - end)\n", "PASS|canvas.CompositeCanvas.trim_end"),
     Mut("side-trim-keeps-outside-cursor", _CANV, "CompositeCanvas.pad_trim_left_right", "        if left < 0 or right < 0:\n            self._drop_trimmed_cursor()\n", "", "PASS|canvas.CompositeCanvas.pad_trim_left_right"),
